@@ -5,6 +5,9 @@ streams derived from one PRNG:
     fuzz      arbitrary strings over an alphabet of dialect characters and non-ASCII characters
     tokens    random token sequences of the dialect (keywords in any case, identifiers, numbers, fractions, strings,
               guids, punctuation, rel ids, cardinalities) with random separators and comments
+    family    (3 %) small complete files around identifiers python treats specially: attribute names of one class that
+              differ at most in letter case (declared or inferred from a named INSERT) under an association, and `mro`
+              (the one non-dunder attribute every python class has) as class / attribute / key / identifier name
     mutation  single-edit mutations of valid files (70 %): delete / duplicate / swap / replace a token, flip the
               lexical class of a value, truncate, unterminated string / guid, comment marker inserted, separator
               removed.  Valid files are grammar-derived statement lists (incl. named INSERTs, leading commas, reserved
@@ -28,8 +31,9 @@ from sexp import Sym, dumps
 import gen_schema
 
 PROP = 'C12'
-RULE = ('three streams from one PRNG: arbitrary strings (15 %), random token sequences (15 %), single-edit mutations of '
-        'valid files (70 %); 1-4 texts per loader; a case is non-trivial when at least one text was accepted and at least '
+RULE = ('four streams from one PRNG: arbitrary strings (15 %), random token sequences (14 %), valid files and their '
+        'single-edit mutations (68 %; attribute names of one class may coincide apart from letter case, `mro` is in the '
+        'identifier pool), small files around case-variant attribute names and python class attributes (3 %); 1-4 texts per loader; a case is non-trivial when at least one text was accepted and at least '
         'one rejected, or the build ended in a documented exception; distinct = distinct text sequence')
 EXHAUSTIVE = {'quick': False, 'thorough': False}
 ASSUMPTIONS = [
@@ -46,6 +50,7 @@ _x = None
 
 RESERVED = gen_schema.RESERVED
 DUNDER = re.compile(r'__\w+__')
+PYATTRS = ['mro']          # the names every python class has besides the dunders (dir(type)); none comes from xtuml.Class
 DUNDERS = ['__class__', '__dict__', '__metaclass__', '__hash__', '__init__', '__weakref__', '__getattribute__', '__name__']
 
 
@@ -78,6 +83,8 @@ def g_ident(rng, dunder_ok=True):
     r = rng.random()
     if dunder_ok and r < 0.004:
         return rng.choice(DUNDERS)
+    if r < 0.014:
+        return rng.choice(PYATTRS + PYATTRS + [w.upper() for w in PYATTRS] + [w.capitalize() for w in PYATTRS])
     if r < 0.25:
         return g_case(rng, rng.choice(RESERVED))
     if r < 0.33:
@@ -159,9 +166,12 @@ def g_stmt(rng, env):
         names = set()
         attrs = []
         for _ in range(rng.randint(0, 4)):
-            nm = g_ident(rng)
-            if nm.upper() in names:
-                continue
+            if attrs and rng.random() < 0.04:
+                nm = g_case(rng, rng.choice(attrs)[0])     # a second attribute of that name, in the same or another letter case
+            else:
+                nm = g_ident(rng)
+                if nm.upper() in names:
+                    continue
             names.add(nm.upper())
             attrs.append([nm, g_type(rng)])
         if rng.random() < 0.9 or not env.classes:
@@ -203,7 +213,11 @@ def g_stmt(rng, env):
     # INSERT
     if rng.random() < 0.12:
         kind = g_ident(rng)                                  # class inferred from the values
-        attrs = [['_', rng.choice(gen_schema.CORE)] for _ in range(rng.randint(0, 4))]
+        attrs = []
+        for _ in range(rng.randint(0, 4)):
+            r2 = rng.random()
+            nm = '_' if r2 < 0.15 else g_case(rng, rng.choice(attrs)[0]) if attrs and r2 < 0.3 else g_ident(rng)
+            attrs.append([nm, rng.choice(gen_schema.CORE)])
     else:
         c = rng.choice(env.classes)
         kind = g_case(rng, c[0]) if rng.random() < 0.3 else c[0]
@@ -334,8 +348,64 @@ def mutate(rng, toks):
     return ''.join(toks)
 
 
+def g_family(rng):
+    """small complete files around identifiers that python treats specially: two attribute names of one class that differ
+    at most in letter case (declared, or inferred from a named INSERT) with an association over one of them, and the
+    non-dunder names every python class has (`mro`) as class name, attribute name, association key, identifier"""
+    core = gen_schema.CORE
+
+    def val(t):
+        return ' '.join(g_value_of(rng, t))
+
+    base = rng.choice(['i', 'x', 'Id', 'Key', 'mro', 'name'])
+    fam = rng.choice(['case-attrs', 'case-attrs', 'pyattr'])
+    if fam == 'case-attrs':
+        a1 = base
+        a2 = g_case(rng, base)
+        if a2 == a1 and rng.random() < 0.8:
+            a2 = a1.swapcase()
+        acls, bcls, j = rng.choice(['A', 'a', 'Dog']), rng.choice(['B', 'Owner']), rng.choice(['j', 'Ref', a1])
+        skey, tkey = j, rng.choice([a1, a2, a2])
+    else:
+        pool = PYATTRS + ['i', 'j', 'A', 'B']
+        a1, a2 = rng.choice(pool), rng.choice(['k', 'n_2'])
+        acls, bcls, j = rng.choice(['A', 'A'] + PYATTRS), rng.choice(['B', 'B'] + PYATTRS), rng.choice(pool)
+        skey, tkey = rng.choice([j] + PYATTRS), rng.choice([a1, a1] + PYATTRS)
+        if acls.upper() == bcls.upper():
+            bcls = 'B'
+    t1, t2, t3 = rng.choice(core), rng.choice(core), rng.choice(core)
+    if fam == 'case-attrs' and rng.random() < 0.35:
+        t1, t2 = 'STRING', rng.choice(['INTEGER', 'REAL', 'BOOLEAN', 'UNIQUE_ID'])    # the type looked up by upper-cased name is not the value's
+    if rng.random() < 0.5:
+        t3 = rng.choice([t1, t2])
+    stmts = []
+    declared = rng.random() < 0.8
+    if declared:
+        stmts.append('CREATE TABLE %s (%s %s, %s %s);' % (acls, a1, t1, a2, t2))
+    stmts.append('CREATE TABLE %s (%s %s);' % (bcls, j, t3))
+    if rng.random() < 0.85:
+        ends = [(rng.choice(['MC', 'M', '1C']), bcls, skey), (rng.choice(['1', '1C']), acls, tkey)]
+        if rng.random() < 0.25:
+            ends.reverse()
+        stmts.append('CREATE ROP REF_ID R1 FROM %s %s (%s) TO %s %s (%s);' % (ends[0] + ends[1]))
+    if rng.random() < 0.3:
+        stmts.append('CREATE UNIQUE INDEX %s ON %s (%s);' % (rng.choice(['I1'] + PYATTRS), acls, rng.choice([a1, a2, tkey])))
+    for _ in range(rng.randint(0, 2)):
+        stmts.append('INSERT INTO %s VALUES (%s);' % (bcls, val(t3)))
+    for _ in range(rng.randint(0 if declared else 1, 2)):
+        if declared and rng.random() < 0.6:
+            stmts.append('INSERT INTO %s VALUES (%s, %s);' % (acls, val(t1), val(t2)))
+        else:
+            stmts.append('INSERT INTO %s (%s, %s) VALUES (%s, %s);' % (acls, a1, a2, val(t1), val(t2)))
+    if rng.random() < 0.3:
+        rng.shuffle(stmts)
+    return rng.choice(['\n', ' ']).join(stmts)
+
+
 def g_text(rng, env, stream):
     """(text, expected-to-be-valid?)"""
+    if stream == 'family':
+        return g_family(rng)
     if stream == 'fuzz':
         return g_fuzz(rng)
     if stream == 'tokens':
@@ -363,7 +433,7 @@ def generate(ctx):
         streams = []
         for _ in range(k):
             r = rng.random()
-            stream = 'mutation' if r < 0.55 else 'valid' if r < 0.70 else 'fuzz' if r < 0.85 else 'tokens'
+            stream = 'mutation' if r < 0.53 else 'valid' if r < 0.68 else 'fuzz' if r < 0.83 else 'tokens' if r < 0.97 else 'family'
             texts.append(g_text(rng, env, stream))
             streams.append(stream)
         yield {'texts': texts, 'streams': streams}
